@@ -215,3 +215,91 @@ package generator
 //@   ensures [C04,C09,C01] raw-ready: raw_ready(emitted(out))
 //@   ensures [C04,C09,C17] order: frags_ordered(emitted(out))
 //@   ensures [C19,C01] shadow: shadow_ok(emitted(out), declType.Name)
+
+// ---- attaching validators to a field (structFieldValidators) -----------------
+// Scenario: an empty validator list, a field whose schema node S = f.SchemaType
+// carries symbolic keyword values, and the field's Go type t from a finite set
+// of shapes. The function is verified against its own body through pointers and
+// nested arrays (self-calls inlined).
+//@ spec S(f) = f.SchemaType
+//@ spec prim_is(t, name) = dyn(t) == "codegen.PrimitiveType" && t.Type == name
+//@ spec has_import(g, q) = has_elem(g.output.file.Package.Imports, "", "QualifiedName", q)
+//@ spec str_kw(f) = f.SchemaType.MinLength != 0 || f.SchemaType.MaxLength != 0 || f.SchemaType.Pattern != ""
+//@ spec num_kw(f) = f.SchemaType.MultipleOf != nil || f.SchemaType.Maximum != nil || f.SchemaType.ExclusiveMaximum != nil
+//@     || f.SchemaType.Minimum != nil || f.SchemaType.ExclusiveMinimum != nil
+
+//@ func (*schemaGenerator).structFieldValidators @string
+//@   props C06 C01 C19 C02
+//@   option inline (*schemaGenerator).structFieldValidators
+//@   option shape-zero f.
+//@   shape g = sgen(json)
+//@   shape validators = absvals(0)
+//@   shape f.SchemaType = new
+//@   shape t = prim:string | ptr:string
+//@   shape isNillable = false
+//@   assigns *g.output.file
+//@   ensures [C06] attached-iff-keyword: (len(result) == 1 <==> str_kw(f)) && len(result) <= 1
+//@   ensures [C06,C19] carries-schema: len(result) == 1 ==> dyn(result[0]) == "*generator.stringValidator"
+//@       && result[0].minLength == f.SchemaType.MinLength && result[0].maxLength == f.SchemaType.MaxLength && result[0].pattern == f.SchemaType.Pattern
+//@       && result[0].fieldName == f.Name && result[0].jsonName == f.JSONName
+//@       && (result[0].isNillable <==> dyn(t) == "*codegen.PointerType")
+//@   ensures [C01] regexp-import: has_import(g, "regexp") <==> f.SchemaType.Pattern != ""
+
+//@ func (*schemaGenerator).structFieldValidators @numeric
+//@   props C05 C01 C19 C02 C15
+//@   option inline (*schemaGenerator).structFieldValidators
+//@   option shape-zero f.
+//@   shape g = sgen(json)
+//@   shape validators = absvals(0)
+//@   shape f.SchemaType = new
+//@   shape f.SchemaType.MultipleOf = nil | new
+//@   shape f.SchemaType.Maximum = nil | new
+//@   shape f.SchemaType.Minimum = nil | new
+//@   shape f.SchemaType.ExclusiveMaximum = nil | new
+//@   shape f.SchemaType.ExclusiveMinimum = nil | new
+//@   shape *f.SchemaType.ExclusiveMaximum = anyfloat
+//@   shape *f.SchemaType.ExclusiveMinimum = anybool
+//@   shape t = prim:int | prim:uint8 | prim:int64 | prim:float64 | ptr:int | ptr:float64 | prim:bool
+//@   shape isNillable = false
+//@   assigns *g.output.file
+//@   ensures [C05] attached-iff-keyword: (len(result) == 1 <==> num_kw(f) && !prim_is(t, "bool")) && len(result) <= 1
+//@   ensures [C05,C19,C15] carries-schema: len(result) == 1 ==> dyn(result[0]) == "*generator.numericValidator"
+//@       && result[0].multipleOf == f.SchemaType.MultipleOf && result[0].maximum == f.SchemaType.Maximum && result[0].minimum == f.SchemaType.Minimum
+//@       && result[0].exclusiveMaximum == f.SchemaType.ExclusiveMaximum && result[0].exclusiveMinimum == f.SchemaType.ExclusiveMinimum
+//@       && result[0].fieldName == f.Name && result[0].jsonName == f.JSONName
+//@       && (result[0].isNillable <==> dyn(t) == "*codegen.PointerType")
+//@       && (result[0].roundToInt <==> !(prim_is(t, "float64") || (dyn(t) == "*codegen.PointerType" && prim_is(t.Type, "float64"))))
+//@   ensures [C01] math-import: has_import(g, "math") <==> f.SchemaType.MultipleOf != nil && (prim_is(t, "float64") || (dyn(t) == "*codegen.PointerType" && prim_is(t.Type, "float64")))
+
+//@ func (*schemaGenerator).structFieldValidators @null
+//@   props C03 C19
+//@   option inline (*schemaGenerator).structFieldValidators
+//@   option shape-zero f.
+//@   shape g = sgen(json)
+//@   shape validators = absvals(0)
+//@   shape f.SchemaType = new
+//@   shape t = null: | arr1:null | arr2:null | arr3:null
+//@   shape isNillable = false
+//@   assigns nothing
+//@   ensures [C03] null-validator-at-depth: has_elem(result, "*generator.nullTypeValidator", "fieldName", f.Name, "jsonName", f.JSONName,
+//@       "arrayDepth", dyn(t) == "codegen.NullType" ? 0 : dyn(t.Type) == "codegen.NullType" ? 1 : dyn(t.Type.Type) == "codegen.NullType" ? 2 : 3)
+
+// Arrays: the level-k array must be checked against the limits stated on the
+// level-k schema node (S, S.Items, S.Items.Items).
+//@ spec lim(s) = s.MinItems != 0 || s.MaxItems != 0
+//@ func (*schemaGenerator).structFieldValidators @array
+//@   props C07 C19 C02
+//@   option inline (*schemaGenerator).structFieldValidators
+//@   option shape-zero f.
+//@   shape g = sgen(json)
+//@   shape validators = absvals(0)
+//@   shape f.SchemaType = new
+//@   shape f.SchemaType.Items = new
+//@   shape f.SchemaType.Items.Items = new
+//@   shape t = arr1:int | arr2:int | arr3:int
+//@   shape isNillable = false
+//@   assigns nothing
+//@   ensures [C07] level-1: has_elem(result, "*generator.arrayValidator", "arrayDepth", 1, "minItems", f.SchemaType.MinItems, "maxItems", f.SchemaType.MaxItems, "fieldName", f.Name, "jsonName", f.JSONName) <==> lim(f.SchemaType)
+//@   ensures [C07] level-2: dyn(t.Type) == "*codegen.ArrayType" ==> (has_elem(result, "*generator.arrayValidator", "arrayDepth", 2, "minItems", f.SchemaType.Items.MinItems, "maxItems", f.SchemaType.Items.MaxItems) <==> lim(f.SchemaType.Items))
+//@   ensures [C07] level-3: dyn(t.Type) == "*codegen.ArrayType" && dyn(t.Type.Type) == "*codegen.ArrayType" ==> (has_elem(result, "*generator.arrayValidator", "arrayDepth", 3, "minItems", f.SchemaType.Items.Items.MinItems, "maxItems", f.SchemaType.Items.Items.MaxItems) <==> lim(f.SchemaType.Items.Items))
+//@   ensures [C07,C19] no-stray-level: !has_elem(result, "*generator.arrayValidator", "arrayDepth", 0) && (dyn(t.Type) != "*codegen.ArrayType" ==> !has_elem(result, "*generator.arrayValidator", "arrayDepth", 2))
